@@ -272,7 +272,8 @@ func runCase(t vh.TB, c *Case) vh.Outcome {
 			o.Err = fmt.Errorf("with --forward-user-id the backend's %s carried X-Inverting-Proxy-User-ID values %q; expected exactly the asserted identity %q (client supplied %q)", where, gotIDs, c.Asserted, clientIDs)
 			return o
 		}
-	} else if strings.Join(gotIDs, "\x00") != strings.Join(clientIDs, "\x00") {
+	} else if !c.Shim && strings.Join(gotIDs, "\x00") != strings.Join(clientIDs, "\x00") {
+		// (plain requests only: this is property C02's pass-through; nothing is promised for the handshake)
 		o.Err = fmt.Errorf("without --forward-user-id the client's own X-Inverting-Proxy-User-ID values %q arrived as %q", clientIDs, gotIDs)
 		return o
 	}
@@ -282,7 +283,7 @@ func runCase(t vh.TB, c *Case) vh.Outcome {
 			o.Err = fmt.Errorf("with --strip-credentials the backend's %s carried Authorization values %q", where, gotAuth)
 			return o
 		}
-	} else if strings.Join(gotAuth, "\x00") != strings.Join(clientAuth, "\x00") {
+	} else if !c.Shim && strings.Join(gotAuth, "\x00") != strings.Join(clientAuth, "\x00") {
 		o.Err = fmt.Errorf("without --strip-credentials the client's Authorization values %q arrived as %q", clientAuth, gotAuth)
 		return o
 	}
